@@ -115,3 +115,243 @@ theorem ravel_sorted_coords (sizes rate : List Nat) (h : ValidGrid sizes rate)
   rw [this, Nat.mod_eq_of_lt hr]
 
 end Usid.Reshape
+
+namespace Usid.Reshape
+open Usid Usid.Translate
+
+/-! ### permutations of `range k` and their inverses -/
+
+theorem findIdx_congr_mem {β : Type} (p q : β → Bool) : ∀ (l : List β), (∀ x ∈ l, p x = q x) → l.findIdx p = l.findIdx q
+  | [], _ => rfl
+  | x :: xs, h => by
+    simp only [List.findIdx_cons, h x (by simp)]
+    rw [findIdx_congr_mem p q xs (fun y hy => h y (List.mem_cons_of_mem _ hy))]
+
+theorem perm_facts (k : Nat) (p : List Nat) (h : p.Perm (List.range k)) :
+    p.Nodup ∧ p.length = k ∧ (∀ x ∈ p, x < k) ∧ (∀ j, j < k → j ∈ p) :=
+  ⟨h.nodup_iff.mpr List.nodup_range, by rw [h.length_eq, List.length_range],
+   fun x hx => List.mem_range.mp (h.subset hx), fun j hj => h.symm.subset (List.mem_range.mpr hj)⟩
+
+theorem inversePerm_getElem (k : Nat) (p : List Nat) (j : Nat) (hj : j < k) :
+    (inversePerm k p)[j]'(by simp [inversePerm, hj]) = p.idxOf j := by
+  simp [inversePerm]
+
+/-- the inverse of a permutation of `range k` is a permutation of `range k` -/
+theorem inversePerm_perm (k : Nat) (p : List Nat) (h : p.Perm (List.range k)) :
+    (inversePerm k p).Perm (List.range k) := by
+  obtain ⟨hnd, hlen, hlt, hmem⟩ := perm_facts k p h
+  have hq : (inversePerm k p).Nodup := by
+    unfold inversePerm
+    show List.Pairwise (· ≠ ·) _
+    rw [List.pairwise_map]
+    apply List.Pairwise.imp_of_mem _ (List.nodup_range (n := k))
+    intro a b ha hb hne hab
+    have ha' := hmem a (List.mem_range.mp ha)
+    have hb' := hmem b (List.mem_range.mp hb)
+    have e1 := List.getElem_idxOf (List.idxOf_lt_length_of_mem ha')
+    have e2 := List.getElem_idxOf (List.idxOf_lt_length_of_mem hb')
+    apply hne
+    rw [← e1, ← e2]
+    simp only [hab]
+  rw [List.perm_ext_iff_of_nodup hq List.nodup_range]
+  intro a
+  simp only [inversePerm, List.mem_map, List.mem_range]
+  constructor
+  · rintro ⟨j, hj, rfl⟩
+    rw [← hlen]; exact List.idxOf_lt_length_of_mem (hmem j hj)
+  · intro ha
+    have hak : a < p.length := by rw [hlen]; exact ha
+    exact ⟨p[a], hlt _ (List.getElem_mem hak), hnd.idxOf_getElem a hak⟩
+
+/-- inverting twice gives the permutation back -/
+theorem inversePerm_involutive (k : Nat) (p : List Nat) (h : p.Perm (List.range k)) :
+    inversePerm k (inversePerm k p) = p := by
+  obtain ⟨hnd, hlen, hlt, hmem⟩ := perm_facts k p h
+  have hqperm := inversePerm_perm k p h
+  obtain ⟨hqnd, hqlen, _, _⟩ := perm_facts k _ hqperm
+  apply List.ext_getElem
+  · simp [inversePerm, hlen]
+  · intro a h1 h2
+    have hak : a < k := by rw [← hlen]; exact h2
+    rw [inversePerm_getElem k _ a hak]
+    -- q[p[a]] = a, and q has no duplicates
+    have hpa : p[a] < k := hlt _ (List.getElem_mem h2)
+    have hq1 : (inversePerm k p)[p[a]]'(by rw [hqlen]; exact hpa) = a := by
+      rw [inversePerm_getElem k p _ hpa]; exact hnd.idxOf_getElem a h2
+    have := hqnd.idxOf_getElem p[a] (by rw [hqlen]; exact hpa)
+    rw [hq1] at this
+    exact this
+
+/-- the label-driven axis swap of `reshape_to_n_dims`: looking every file-order label up in the list of
+    labels arranged by `sigma` yields the inverse of `sigma` -/
+theorem label_swap (k : Nat) (sigma : List Nat) (labs : List String) (h : sigma.Perm (List.range k))
+    (hl : labs.length = k) (hnd : labs.Nodup) :
+    labs.map (fun lab => (sigma.map (fun i => labs.getD i default)).findIdx (· == lab)) = inversePerm k sigma := by
+  obtain ⟨_, hlen, hlt, _⟩ := perm_facts k sigma h
+  apply List.ext_getElem
+  · simp [inversePerm, hl]
+  · intro j h1 h2
+    have hjk : j < k := by simpa [inversePerm] using h2
+    have hjl : j < labs.length := by rw [hl]; exact hjk
+    rw [inversePerm_getElem k sigma j hjk, List.getElem_map, List.findIdx_map]
+    show sigma.findIdx _ = sigma.findIdx (· == j)
+    apply findIdx_congr_mem
+    intro x hx
+    have hxl : x < labs.length := by rw [hl]; exact hlt x hx
+    simp only [Function.comp_apply, List.getD_eq_getElem?_getD, List.getElem?_eq_getElem hxl, Option.getD_some]
+    by_cases hxj : x = j
+    · subst hxj; simp
+    · have : labs[x] ≠ labs[j] := fun e => hxj ((List.getElem_inj hnd).mp e)
+      rw [beq_eq_false_iff_ne.mpr this, beq_eq_false_iff_ne.mpr hxj]
+
+end Usid.Reshape
+
+namespace Usid.Reshape
+open Usid Usid.Translate
+
+variable {α : Type} [Inhabited α]
+
+theorem getD_idxOf_map {β : Type} (f : Nat → β) (sigma : List Nat) (j : Nat) (hj : j ∈ sigma) (dflt : β) :
+    (sigma.map f).getD (sigma.idxOf j) dflt = f j := by
+  have hlt := List.idxOf_lt_length_of_mem hj
+  rw [List.getD_eq_getElem?_getD, List.getElem?_map, List.getElem?_eq_getElem hlt]
+  simp only [Option.map_some, Option.getD_some, List.getElem_idxOf hlt]
+
+/-- Going back from the slowest-first arrangement `sigma` to file order, the way `reshape_to_n_dims`
+    does it (axes found by looking labels up): the result has the file-order shape and labels, and reading
+    it at a file-order index reads the sorted array at that index rearranged by `sigma`. -/
+theorem swap_back (nd : NDArr α) (k : Nat) (sigma : List Nat) (hperm : sigma.Perm (List.range k))
+    (fshape : List Nat) (hfl : fshape.length = k) (hsh : nd.shape = sigma.map (fun i => fshape.getD i 1))
+    (labs : List String) (hl : labs.length = k) (hnd : labs.Nodup) :
+    let allLabels := sigma.map (fun i => labs.getD i default)
+    let swap := labs.map (fun lab => allLabels.findIdx (· == lab))
+    ∃ nd2, transposeND nd swap = .ok nd2 ∧ nd2.shape = fshape ∧ pick allLabels swap = labs ∧
+      ∀ idx, InBounds fshape idx → nd2.get idx = nd.get (sigma.map (fun i => idx.getD i 0)) := by
+  intro allLabels swap
+  obtain ⟨hsnd, hslen, hslt, hsmem⟩ := perm_facts k sigma hperm
+  have hswap : swap = inversePerm k sigma := label_swap k sigma labs hperm hl hnd
+  have hqperm := inversePerm_perm k sigma hperm
+  obtain ⟨_, hqlen, _, hqmem⟩ := perm_facts k _ hqperm
+  have hshlen : nd.shape.length = k := by rw [hsh]; simp [hslen]
+  have hinv : (List.range nd.shape.length).map (fun ax => swap.findIdx (· == ax)) = sigma := by
+    rw [hshlen, hswap]
+    exact inversePerm_involutive k sigma hperm
+  have hshape2 : swap.map (fun ax => nd.shape.getD ax 1) = fshape := by
+    rw [hswap, hsh]
+    apply List.ext_getElem
+    · simp [inversePerm, hfl]
+    · intro j h1 h2
+      have hjk : j < k := by rw [← hfl]; exact h2
+      simp only [List.getElem_map, inversePerm, List.getElem_range]
+      rw [getD_idxOf_map (fun i => fshape.getD i 1) sigma j (hsmem j hjk) 1]
+      simp [List.getD_eq_getElem?_getD, List.getElem?_eq_getElem h2]
+  refine ⟨nd.transpose swap sigma, ?_, ?_, ?_, ?_⟩
+  · unfold transposeND
+    have c1 : (swap.length != nd.shape.length) = false := by
+      rw [hswap, hqlen, hshlen]; simp
+    have c2 : (List.range nd.shape.length).all (fun ax => swap.contains ax) = true := by
+      rw [List.all_eq_true]; intro ax hax
+      rw [hshlen] at hax
+      rw [hswap]
+      simpa using hqmem ax (List.mem_range.mp hax)
+    simp only [c1, c2, Bool.not_true, Bool.or_self, Bool.false_eq_true, if_false, hinv]
+  · show swap.map (fun ax => nd.shape.getD ax 1) = fshape
+    exact hshape2
+  · show swap.map (fun i => allLabels.getD i default) = labs
+    rw [hswap]
+    apply List.ext_getElem
+    · simp [inversePerm, hl]
+    · intro j h1 h2
+      have hjk : j < k := by rw [← hl]; exact h2
+      simp only [List.getElem_map, inversePerm, List.getElem_range]
+      rw [getD_idxOf_map (fun i => labs.getD i default) sigma j (hsmem j hjk) default]
+      simp [List.getD_eq_getElem?_getD, List.getElem?_eq_getElem h2]
+  · intro idx hb
+    have := transpose_get nd swap sigma idx (by rw [hshape2]; exact hb)
+    rw [this]; rfl
+
+end Usid.Reshape
+
+namespace Usid.Reshape
+open Usid Usid.Grid Usid.Dims Usid.C09
+
+variable {α : Type} [Inhabited α]
+
+/-- coordinates of point `r` of a regular grid along a list of dimensions -/
+def coords (sizes rate : List Nat) (r : Nat) (dims : List Nat) : List Nat :=
+  dims.map (fun d => gridIdx (sizeFn sizes) rate r d)
+
+/-- the N-D array `reshape_to_n_dims` builds before any axis swap: `main` reshaped to the sizes of the
+    dimensions listed slowest first, positions before spectroscopic -/
+def sortedND (main : NDArr α) (pS pR sS sR : List Nat) : NDArr α :=
+  main.reshape (((getSortOrder (gridMatrix pS pR)).map (sizeFn pS)).reverse ++
+    ((getSortOrder (gridMatrix sS sR)).map (sizeFn sS)).reverse)
+
+/-- the slowest-first arrangement of all dimensions: positions first, each side from its slowest to its
+    fastest dimension (spectroscopic dimension numbers shifted by the number of position dimensions) -/
+def sigmaOf (kp : Nat) (ordP ordS : List Nat) : List Nat := ordP.reverse ++ ordS.reverse.map (· + kp)
+
+theorem sigma_perm (kp ks : Nat) (ordP ordS : List Nat) (hP : ordP.Perm (List.range kp)) (hS : ordS.Perm (List.range ks)) :
+    (sigmaOf kp ordP ordS).Perm (List.range (kp + ks)) := by
+  unfold sigmaOf
+  have e : List.range (kp + ks) = List.range kp ++ (List.range ks).map (· + kp) := by
+    rw [List.range_add]
+    congr 1
+    apply List.map_congr_left; intro a _; exact Nat.add_comm _ _
+  rw [e]
+  exact ((List.reverse_perm _).trans hP).append (((List.reverse_perm _).trans hS).map _)
+
+theorem getD_append_shift {β : Type} (a b : List β) (d : Nat) (dflt : β) :
+    (a ++ b).getD (d + a.length) dflt = b.getD d dflt := by
+  rw [List.getD_eq_getElem?_getD, List.getD_eq_getElem?_getD, List.getElem?_append_right (by omega)]
+  congr 2; omega
+
+theorem getD_append_lt {β : Type} (a b : List β) (d : Nat) (dflt : β) (h : d < a.length) :
+    (a ++ b).getD d dflt = a.getD d dflt := by
+  rw [List.getD_eq_getElem?_getD, List.getD_eq_getElem?_getD, List.getElem?_append_left h]
+
+/-- mapping a function of the concatenated file-order list over `sigma` splits into the two sides -/
+theorem sigma_map {β : Type} (kp : Nat) (ordP ordS : List Nat) (a b : List β) (dflt : β) (ha : a.length = kp)
+    (hP : ∀ d ∈ ordP, d < kp) :
+    (sigmaOf kp ordP ordS).map (fun i => (a ++ b).getD i dflt) =
+      ordP.reverse.map (fun d => a.getD d dflt) ++ ordS.reverse.map (fun d => b.getD d dflt) := by
+  unfold sigmaOf
+  rw [List.map_append, List.map_map]
+  congr 1
+  · apply List.map_congr_left
+    intro d hd
+    exact getD_append_lt a b d dflt (by rw [ha]; exact hP d (List.mem_reverse.mp hd))
+  · apply List.map_congr_left
+    intro d _
+    simp only [Function.comp_apply]
+    rw [← ha]; exact getD_append_shift a b d dflt
+
+theorem inBounds_append : ∀ (s1 i1 s2 i2 : List Nat), InBounds s1 i1 → InBounds s2 i2 → InBounds (s1 ++ s2) (i1 ++ i2)
+  | [], [], _, _, _, h => h
+  | s :: ss, i :: is, s2, i2, h1, h2 => ⟨h1.1, inBounds_append ss is s2 i2 h1.2 h2⟩
+  | [], _ :: _, _, _, h, _ => by simp [InBounds] at h
+  | _ :: _, [], _, _, h, _ => by simp [InBounds] at h
+
+theorem inBounds_of_forall : ∀ (s i : List Nat), s.length = i.length →
+    (∀ j (h1 : j < s.length) (h2 : j < i.length), i[j] < s[j]) → InBounds s i
+  | [], [], _, _ => trivial
+  | s :: ss, i :: is, hl, h => by
+    refine ⟨h 0 (by simp) (by simp), inBounds_of_forall ss is (by simpa using hl) ?_⟩
+    intro j h1 h2
+    exact h (j + 1) (by simp; omega) (by simp; omega)
+  | [], _ :: _, hl, _ => by simp at hl
+  | _ :: _, [], hl, _ => by simp at hl
+
+/-- the file-order coordinates of a point are in bounds of the sizes -/
+theorem coords_inBounds (sizes rate : List Nat) (h : ValidGrid sizes rate) (r : Nat) :
+    InBounds sizes (coords sizes rate r (List.range sizes.length)) := by
+  apply inBounds_of_forall
+  · simp [coords]
+  · intro j h1 h2
+    simp only [coords, List.getElem_map, List.getElem_range, gridIdx]
+    have hpos : 0 < sizes[j] := h.2 _ (List.getElem_mem h1)
+    have : sizeFn sizes j = sizes[j] := by simp [sizeFn, List.getD_eq_getElem?_getD, List.getElem?_eq_getElem h1]
+    rw [this]; exact Nat.mod_lt _ hpos
+
+
+end Usid.Reshape
